@@ -8,12 +8,15 @@ import (
 	"fmt"
 	"net"
 	"os"
+	gosyslog "log/syslog"
 	"strings"
 	"sync"
+	"time"
 
 	tq "github.com/facebookincubator/tacquito"
 	"github.com/facebookincubator/tacquito/cmds/server/config"
 	"github.com/facebookincubator/tacquito/cmds/server/config/accounters/local"
+	sysacct "github.com/facebookincubator/tacquito/cmds/server/config/accounters/syslog"
 	"github.com/facebookincubator/tacquito/cmds/server/config/authenticators/bcrypt"
 	"github.com/facebookincubator/tacquito/cmds/server/config/authorizers/stringy"
 	"github.com/facebookincubator/tacquito/cmds/server/config/secret"
@@ -75,6 +78,7 @@ type RGroup struct {
 	Name     BS         `json:"name"`
 	Auth     RAuth      `json:"auth"`
 	Acct     bool       `json:"acct"`
+	AcctK    string     `json:"acctk"` // "" / "file" = log-backed accounter, "syslog" = syslog accounter
 	Commands []RCommand `json:"commands"`
 	Services []RService `json:"services"`
 }
@@ -83,6 +87,7 @@ type RUser struct {
 	Scopes   []string   `json:"scopes"`
 	Auth     RAuth      `json:"auth"`
 	Acct     bool       `json:"acct"`
+	AcctK    string     `json:"acctk"`
 	Groups   []RGroup   `json:"groups"`
 	Commands []RCommand `json:"commands"`
 	Services []RService `json:"services"`
@@ -229,9 +234,12 @@ func rAuth(a RAuth) *config.Authenticator {
 	}
 	return nil
 }
-func rAcct(on bool) *config.Accounter {
+func rAcct(on bool, kind string) *config.Accounter {
 	if !on {
 		return nil
+	}
+	if kind == "syslog" {
+		return &config.Accounter{Name: "syslog", Type: config.SYSLOG}
 	}
 	return &config.Accounter{Name: "file", Type: config.FILE}
 }
@@ -281,10 +289,10 @@ func renderCfg(c *RCfg) config.ServerConfig {
 			Type: config.PREFIX, Options: map[string]string{"prefixes": string(pj)}})
 	}
 	for _, u := range c.Users {
-		cu := config.User{Name: string(u.Name), Scopes: append([]string{}, u.Scopes...), Authenticator: rAuth(u.Auth), Accounter: rAcct(u.Acct),
+		cu := config.User{Name: string(u.Name), Scopes: append([]string{}, u.Scopes...), Authenticator: rAuth(u.Auth), Accounter: rAcct(u.Acct, u.AcctK),
 			Commands: rCommands(u.Commands), Services: rServices(u.Services)}
 		for _, g := range u.Groups {
-			cu.Groups = append(cu.Groups, config.Group{Name: string(g.Name), Authenticator: rAuth(g.Auth), Accounter: rAcct(g.Acct),
+			cu.Groups = append(cu.Groups, config.Group{Name: string(g.Name), Authenticator: rAuth(g.Auth), Accounter: rAcct(g.Acct, g.AcctK),
 				Commands: rCommands(g.Commands), Services: rServices(g.Services)})
 		}
 		sc.Users = append(sc.Users, cu)
@@ -311,8 +319,11 @@ type jsonSink struct {
 
 // Printf formats exactly like log.Logger does and records the line together with its JSON decoding.
 func (s *jsonSink) Printf(format string, args ...interface{}) {
-	line := fmt.Sprintf(format, args...)
-	e := E{"e": "sink", "line": line, "ok": false, "dec": V{}}
+	s.emit(fmt.Sprintf(format, args...), "file")
+}
+
+func (s *jsonSink) emit(line string, via string) {
+	e := E{"e": "sink", "via": via, "line": line, "ok": false, "dec": V{}}
 	var d struct {
 		Flags, Method, PrivLvl, Type, Service *int
 		User, Port, RemAddr                  *string
@@ -353,6 +364,10 @@ type refRun struct {
 	connKey map[int][]byte
 	mu      sync.Mutex
 	byAddr  map[string]*refConnState
+	sysAcc  *sysacct.Accounter
+	sysLn   net.Listener
+	sysConn net.Conn
+	sysRd   *bufio.Reader
 }
 
 type refConnState struct {
@@ -381,6 +396,7 @@ func (r *refRun) loaderFor(c *RCfg) *loader.Loader {
 		loader.RegisterHandlerType(config.START, handlers.NewStart(r.log)),
 		loader.RegisterAuthenticator(config.BCRYPT, bcrypt.New(r.log, okSecret{})),
 		loader.RegisterAccounter(config.FILE, acc),
+		loader.RegisterAccounter(config.SYSLOG, r.syslogAccounter()),
 	)
 	if err != nil {
 		panic(err)
@@ -532,6 +548,14 @@ func (r *refRun) open(c int, addr string, extra E) *refConnState {
 }
 
 func (r *refRun) feed(st *refConnState, s *RStep, i int) bool {
+	closed := r.feed0(st, s, i)
+	if !s.Hold {
+		r.drainSyslog()
+	}
+	return closed
+}
+
+func (r *refRun) feed0(st *refConnState, s *RStep, i int) bool {
 	if st.conn.IsClosed() {
 		return true
 	}
@@ -732,4 +756,61 @@ func cmdRef(args []string) {
 	}
 	r.stop()
 	fmt.Printf("{\"scenarios\":%d,\"events\":%d}\n", n, rec.N)
+}
+
+// ---- syslog accounter: the real syslog.Writer dials a loopback TCP listener of the harness, which is the sink ----
+
+type sysLogAdapter struct{ l *CapLog }
+
+func (a sysLogAdapter) Infof(format string, args ...interface{})  { a.l.Infof(context.Background(), format, args...) }
+func (a sysLogAdapter) Errorf(format string, args ...interface{}) { a.l.Errorf(context.Background(), format, args...) }
+
+func (r *refRun) syslogAccounter() *sysacct.Accounter {
+	if r.sysAcc != nil {
+		return r.sysAcc
+	}
+	ln, err := net.Listen("tcp", "127.0.0.1:0")
+	if err != nil {
+		panic(err)
+	}
+	r.sysLn = ln
+	acceptCh := make(chan net.Conn, 1)
+	go func() {
+		c, err := ln.Accept()
+		if err == nil {
+			acceptCh <- c
+		}
+	}()
+	w, err := gosyslog.Dial("tcp", ln.Addr().String(), gosyslog.LOG_INFO|gosyslog.LOG_LOCAL0, "tacquito")
+	if err != nil {
+		panic(err)
+	}
+	r.sysConn = <-acceptCh
+	r.sysRd = bufio.NewReader(r.sysConn)
+	r.sysAcc = sysacct.New(sysLogAdapter{r.log}, w)
+	return r.sysAcc
+}
+
+// drainSyslog reads what the syslog accounter has written so far (loopback TCP: once Write returned the octets are
+// readable) and records each line's message part as a sink event.
+func (r *refRun) drainSyslog() {
+	if r.sysConn == nil {
+		return
+	}
+	for {
+		r.sysConn.SetReadDeadline(time.Now().Add(3 * time.Millisecond))
+		line, err := r.sysRd.ReadString('\n')
+		if len(line) > 0 && err == nil {
+			msg := line
+			if k := strings.Index(line, "]: "); k >= 0 {
+				msg = line[k+3:]
+			}
+			msg = strings.TrimRight(msg, "\n")
+			(&jsonSink{rec: r.rec}).emit(msg, "syslog")
+			continue
+		}
+		if err != nil {
+			return
+		}
+	}
 }
